@@ -782,6 +782,11 @@ func locKey(addr AV) string {
 			if k := locKey(b); k != "" {
 				return k + "." + a.Field
 			}
+		case ElemRef:
+			// a field of an element of a package-level table
+			if k := locKey(b); strings.HasPrefix(k, "global:") {
+				return k + "." + a.Field
+			}
 		case Dyn:
 			if s, ok := b.V.(Sym); ok {
 				return s.Name + "." + a.Field
@@ -792,6 +797,15 @@ func locKey(addr AV) string {
 	case ElemRef:
 		if s, ok := a.Base.(Sym); ok {
 			return s.Name + "[" + a.Idx.String() + "]"
+		}
+		// an element of an array that is itself a field / element of a package-level variable
+		if _, isConst := a.Idx.(Const); isConst {
+			switch b := a.Base.(type) {
+			case FieldRef, ElemRef:
+				if k := locKey(b); strings.HasPrefix(k, "global:") {
+					return k + "[" + a.Idx.String() + "]"
+				}
+			}
 		}
 	}
 	return ""
@@ -904,6 +918,12 @@ func (in *Interp) load(st *State, addr AV, t types.Type, pos token.Pos) AV {
 				ref := st.alloc(&Obj{T: t, Kind: 'm', Site: "emptymap:" + key, Val: NonNil{"map"}})
 				st.symMem[key] = ref
 				return ref
+			}
+		}
+		// a package-level table: what its initialiser stored, if nothing else ever writes the variable
+		if strings.Contains(key, "global:") {
+			if v, ok := in.W.globalFact(epochRe.ReplaceAllString(key, ""), t); ok {
+				return v
 			}
 		}
 		// a configured field that has moved into (or out of) an embedded struct: r.x.f is given, r.x.ctx.f is
